@@ -29,6 +29,9 @@ pub fn set_verbose(v: bool) {
 pub fn install_panic_hook() {
     HOOK.call_once(|| {
         std::panic::set_hook(Box::new(|info| {
+            if info.payload().downcast_ref::<SimDeadline>().is_some() {
+                return;
+            }
             let loc = info.location().map(|l| format!("{}:{}", l.file(), l.line())).unwrap_or_default();
             let msg = if let Some(s) = info.payload().downcast_ref::<&str>() {
                 s.to_string()
@@ -82,17 +85,99 @@ pub fn run_sim<F: Future>(tokio_seed: u64, tape: &Tape, defer_level: u8, fut: F)
         .rng_seed(tokio::runtime::RngSeed::from_bytes(&tokio_seed.to_le_bytes()))
         .build()
         .unwrap();
-    if defer_level > 0 {
-        let t = tape.clone();
-        remoc::exec::verif::set_decider(Some(Box::new(move || t.next() < defer_level)));
-    } else {
-        remoc::exec::verif::set_decider(None);
-    }
-    let out = rt.block_on(fut);
+    // Spin guard: on a paused clock, tasks that keep waking each other without ever waiting for
+    // a timer are a livelock (virtual time never advances, the case never ends in real time).
+    // When the wrapped tasks (all of remoc's own tasks and the harness actors) have been polled
+    // SPIN_LIMIT times at one and the same virtual instant, they are parked for the rest of the
+    // case: the runtime becomes idle, the clock advances to the harness's deadlines and the
+    // oracle reports what never completed. Healthy cases stay far below the limit (measured
+    // maximum in `spin_max()`).
+    remoc::exec::verif::set_parked(false);
+    let t = tape.clone();
+    let mut polls: u64 = 0;
+    let mut stagnant_since: u64 = 0;
+    let mut last_now: Option<tokio::time::Instant> = None;
+    remoc::exec::verif::set_decider(Some(Box::new(move || {
+        polls += 1;
+        if polls % SPIN_STRIDE == 0 {
+            let now = tokio::time::Instant::now();
+            if last_now != Some(now) {
+                last_now = Some(now);
+                stagnant_since = polls;
+            }
+            let stagnant = polls - stagnant_since;
+            SPIN_MAX.fetch_max(stagnant, std::sync::atomic::Ordering::Relaxed);
+            if stagnant >= spin_limit() * SPIN_SCALE.with(|c| c.get()) {
+                SPIN_TRIPPED.with(|c| c.set(true));
+                remoc::exec::verif::set_parked(true);
+            }
+        }
+        defer_level > 0 && t.next() < defer_level
+    })));
+    // Safety net: a harness future that waits for something that can never happen would leave
+    // the paused runtime parked for ever in real time. The timer makes the clock jump to the
+    // global virtual deadline instead; the case then counts as inconclusive (never a violation).
+    let out = rt.block_on(async { tokio::time::timeout(std::time::Duration::from_secs(GLOBAL_DEADLINE_S), fut).await });
     remoc::exec::verif::set_decider(None);
+    remoc::exec::verif::set_parked(false);
     // Dropping the runtime drops all remaining tasks.
     drop(rt);
-    out
+    match out {
+        Ok(v) => v,
+        Err(_) => {
+            SIM_DEADLINE.with(|c| c.set(true));
+            std::panic::panic_any(SimDeadline)
+        }
+    }
+}
+
+/// Virtual seconds after which a simulated case is abandoned as inconclusive (115 days; the
+/// longest legitimate deadline of any check is below 10^6 s).
+pub const GLOBAL_DEADLINE_S: u64 = 10_000_000;
+
+/// Panic payload of an abandoned case.
+pub struct SimDeadline;
+
+thread_local! {
+    static SIM_DEADLINE: std::cell::Cell<bool> = const { std::cell::Cell::new(false) };
+}
+
+/// True if a `run_sim` on this thread hit the global virtual deadline since the last call.
+pub fn take_sim_deadline() -> bool {
+    SIM_DEADLINE.with(|c| c.replace(false))
+}
+
+const SPIN_STRIDE: u64 = 256;
+/// Polls of wrapped tasks at one virtual instant after which a case counts as livelocked.
+const SPIN_LIMIT_DEFAULT: u64 = 2_000_000;
+static SPIN_MAX: std::sync::atomic::AtomicU64 = std::sync::atomic::AtomicU64::new(0);
+
+thread_local! {
+    static SPIN_TRIPPED: std::cell::Cell<bool> = const { std::cell::Cell::new(false) };
+    static SPIN_SCALE: std::cell::Cell<u64> = const { std::cell::Cell::new(1) };
+}
+
+/// Runs `f` with the spin guard's poll budget multiplied by `scale` (confirmation runs).
+pub fn with_spin_scale<T>(scale: u64, f: impl FnOnce() -> T) -> T {
+    let old = SPIN_SCALE.with(|c| c.replace(scale));
+    let r = f();
+    SPIN_SCALE.with(|c| c.set(old));
+    r
+}
+
+fn spin_limit() -> u64 {
+    static L: std::sync::OnceLock<u64> = std::sync::OnceLock::new();
+    *L.get_or_init(|| std::env::var("VERIF_SPIN_LIMIT").ok().and_then(|s| s.parse().ok()).unwrap_or(SPIN_LIMIT_DEFAULT))
+}
+
+/// True if the spin guard parked the tasks of a `run_sim` on this thread since the last call.
+pub fn take_spin() -> bool {
+    SPIN_TRIPPED.with(|c| c.replace(false))
+}
+
+/// Largest number of polls at one virtual instant seen in this process (healthy-case headroom).
+pub fn spin_max() -> u64 {
+    SPIN_MAX.load(std::sync::atomic::Ordering::Relaxed)
 }
 
 /// Like run_sim, but with real (unpaused) time; for cases that use helper threads.
